@@ -767,8 +767,13 @@ class CPreProcessor:
             if hash_token is None:
                 self.error("Unterminated #if/#elif/#else block")
 
-            # Check if we have a directive.
-            if hash_token.first and hash_token.typ == "#":
+            # Check if we have a directive (and not a null directive: a
+            # single '#' on a line).
+            if (
+                hash_token.first
+                and hash_token.typ == "#"
+                and not self.at_line_start
+            ):
                 directive_token = self.next_token(expand=False)
                 if directive_token.typ == "ID":
                     # Stop on else/elif/endif block:
